@@ -111,6 +111,17 @@ static int uc_len(char *s)
 	return 1;
 }
 
+/* like uc_len(), but never past the end of the string */
+static int uc_lenstr(char *s)
+{
+	int n = uc_len(s);
+	int i;
+	for (i = 1; i < n; i++)
+		if (!s[i])
+			return i;
+	return n;
+}
+
 static int uc_dec(char *s)
 {
 	int c = (unsigned char) s[0];
@@ -194,10 +205,10 @@ static void ratom_read(struct ratom *ra, char **pat)
 		ra->ra = RA_CHR;
 		s = *pat;
 		while ((s == *pat) || !strchr(".^$[(|)*?+{\\", (unsigned char) s[0])) {
-			int l = uc_len(s);
+			int l = uc_lenstr(s);
 			if (s != *pat && s[l] != '\0' && strchr("*?+{", (unsigned char) s[l]))
 				break;
-			s += uc_len(s);
+			s += l;
 		}
 		len = s - *pat;
 		ra->s = malloc(len + 1);
